@@ -175,7 +175,7 @@ PROPS = {
                 "commands; bare, optional, defaulted, many, some) among other fields. Derivations "
                 "using one alternative per round must yield exactly that alternative's value "
                 "(repeated choices: values in command-line order); lines mixing items of two "
-                "alternatives of a non-repeated choice must fail on stderr.  A third of the `many` choices are repeated choices between adjacent commands (`build --release test build`); a quarter of the repeated choices have an adjacent group among single flags, and a one-word alternative written inside its block must fail. " + DISTINCT,
+                "alternatives of a non-repeated choice must fail on stderr.  A third of the `many` choices are repeated choices between adjacent commands (`build --release test build`); a quarter of the repeated choices have an adjacent group among single flags, and a one-word alternative written inside its block must fail.  Every 24th case is a choice between a subcommand and a flag (`build --fast` must fail, `--fast build` is two values under `many`). " + DISTINCT,
         "assumptions": COMMON_ASSUMPTIONS + [
             "Branches of repeated choices contain only required single-occurrence items (an "
             "optional member would legitimately take occurrences meant for a later round).",
@@ -196,7 +196,7 @@ PROPS = {
                 "derivation and recogniser; a deeper level's option moved left of its command "
                 "name must fail; unknown / foreign / extra command names are judged by the "
                 "recogniser; `path.. --help` must print the help carrying the unique header "
-                "marker of exactly that level.  A fifth of the command choices sit under fallback/fallback_with.  Half of the trees have a version at the top level only: `--version`/`-V` behind a command name is an unknown flag there. " + DISTINCT,
+                "marker of exactly that level.  A fifth of the command choices sit under fallback/fallback_with.  Half of the trees have a version at the top level only: `--version`/`-V` behind a command name is an unknown flag there.  A sixth of the subcommands are hidden (their trees are written without clusters, F03); every 24th case is a chain of adjacent commands given nothing of their own. " + DISTINCT,
         "assumptions": COMMON_ASSUMPTIONS + [
             "An enclosing level's option right of a command name is outside the quantifier and "
             "counted as inconclusive.",
@@ -216,7 +216,7 @@ PROPS = {
                 "split; words right of it are replaced by dash-looking data (`--`, `--help`, "
                 "declared names, command names) and must arrive verbatim; `--name --` must fail; "
                 "moving the separator so that a strict word is on its left or a non-strict one on "
-                "its right must fail.  Positionals under optional/repeating wrappers are hidden in a quarter of the cases; one definition in eight is `[LEFT-ONLY] .. -- RIGHT-ONLY...`; an absent or repeated left-side-only word does not close the strict words that follow.  The builder clones every other positional after restricting it. " + DISTINCT,
+                "its right must fail.  Positionals under optional/repeating wrappers are hidden in a quarter of the cases; one definition in eight is `[LEFT-ONLY] .. -- RIGHT-ONLY...`; an absent or repeated left-side-only word does not close the strict words that follow.  The builder clones every other positional after restricting it.  A name-like surplus item right of `--` must not get a `did you mean`; every 32nd case is a `cargo_helper` parser with data spelled like the command word right of `--` (F44). " + DISTINCT,
         "assumptions": COMMON_ASSUMPTIONS,
         "must_observe": ["definitions-with-a-hidden-non-strict-positional", "class:sentence-hostile-words-after-separator",
                          "class:argument-name-then-separator",
@@ -237,7 +237,7 @@ PROPS = {
                 "its own item at every boundary left of `--` (including between an argument name "
                 "and its value and inside adjacent blocks); outcome must be stdout carrying the "
                 "header (or version) of the innermost entered level (for invalid base lines: of a "
-                "level on the entered path).  Command choices may sit under fallback/fallback_with.  One case in 24 is a user argument named `-h`/`-V` next to a subcommand, written `-hVALUE`, with a help request on the line. " + DISTINCT,
+                "level on the entered path).  Command choices may sit under fallback/fallback_with.  One case in 24 is a user argument named `-h`/`-V` next to a subcommand, written `-hVALUE`, with a help request on the line.  Chains of adjacent commands may be reduced with `last()`. " + DISTINCT,
         "assumptions": COMMON_ASSUMPTIONS + [
             "No definition declares the same short letter as flag and argument, so the "
             "ambiguous-cluster exemption never applies.",
@@ -262,7 +262,7 @@ PROPS = {
                 "first item, cut short) are run and any value "
                 "they yield is checked token by token: every block value must come from one "
                 "contiguous run of items that starts at the group's first item; a block "
-                "interrupted by an undeclared item must fail. "
+                "interrupted by an undeclared item must fail.  A name of a block written without its value in front of the next member (`--rect --w --h 2 7`) must fail. "
                 + DISTINCT,
         "assumptions": COMMON_ASSUMPTIONS + [
             "Adjacent subcommand chains: sentences (value per command in command-line order) and "
@@ -357,7 +357,7 @@ PROPS = {
                 "(short and full) and error documents for noise vectors with very long items. "
                 "Each Doc is rendered at every width 1..=300 and unwrapped (width 60000); "
                 "evaluations counts renderings. distinct_nontrivial = distinct (definition, "
-                "vector, width) triples with a non-empty document. Arguments declare environment variables; in a third of the cases they are set to a text with an empty line and quotes while help is rendered.",
+                "vector, width) triples with a non-empty document. Arguments declare environment variables; in a third of the cases they are set to a text with an empty line and quotes while help is rendered. Closing fences may carry trailing blanks or a fourth backtick, with prose behind them.",
         "assumptions": COMMON_ASSUMPTIONS + [
             "Width is counted in characters (chars), as bpaf does; East Asian wide characters are "
             "not given double width.",
@@ -433,7 +433,7 @@ PROPS = {
                 "names, `name=` forms, value positions). Oracles: always completion output; every "
                 "candidate explained by the definition; hidden names and names of commands not "
                 "entered never offered; for fresh prefixes at item starts every visible, not yet "
-                "given, top-level name of the active level that extends the prefix is offered.  Every 32nd case: alternatives whose names extend one another, the shorter one typed exactly (F42). "
+                "given, top-level name of the active level that extends the prefix is offered.  Every 32nd case: alternatives whose names extend one another, the shorter one typed exactly (F42).  A sixth of the group titles are empty `Doc`s; every fourth request is repeated with `--bpaf-complete-rev=0` as an item of the line and must give the same answer. "
                 + DISTINCT,
         "assumptions": COMMON_ASSUMPTIONS + [
             "strict() positionals are not generated (next to them bpaf offers a `--` hint the "
